@@ -4,7 +4,7 @@ SPEC = {
     'technique': 'explicit-state exploration of all well-formed operation histories up to a depth bound on the real library, with a whole-image byte diff and behavioural probes against a reference model after every history',
     'claim': 'after every well-formed history of length <= 4 (quick, 28 operations) / <= 5 over the same 28 operations and <= 4 over 40 operations of two symmetric builders (thorough) of Apply / re-Apply / Return / When..Return / Origin+Apply / Cancel / Reset by two builders over functions, an exported and an unexported method, an interface method, a generic instantiation and a function with an origin placeholder, the only bytes of the text image that differ from the pristine image are entry jumps of functions some builder currently mocks and the placeholder body, every target whose state the statement determines behaves as the model says (original after Reset/Cancel), and after resetting everything the image is pristine',
     'note': 'bounded depth and alphabet; for a target two builders have configured at the same time only the byte clause and the behaviour right after a Reset/Cancel are judged (the statement does not order competing builders)',
-    'jobs': [{'bin': 'c02', 'shards': 16, 'case_timeout': 60, 'single_timeout': 120, 'hang_is_violation': True, 'max_restarts': 1, 'maxcases': 10000}],
+    'jobs': [{'bin': 'c02', 'shards': 16, 'case_timeout': 180, 'single_timeout': 300, 'hang_is_violation': True, 'max_restarts': 1, 'maxcases': 10000}],
     'rule': 'all sequences over the alphabet filtered by the model\'s well-formedness (no bare Return after a clause exists), each replayed from scratch on fresh builders; oracle after the last step (every prefix is itself an enumerated history); '
             'distinct_nontrivial = histories containing at least one mock-installing operation; evaluations = judged observations (1 image diff + 5 probes per judged target).',
     'assumptions': ['text image = ELF .text of the worker binary; neighbours are covered because the whole image is diffed'],
